@@ -46,6 +46,48 @@ INTRO = [
 ]
 
 
+def documented_calls():
+    """every builtin function TIFA knows and every public method of str/list/dict/int/float/tuple/set, called with
+    0-2 positional arguments of several types and with each keyword parameter CPython documents"""
+    import builtins
+    import inspect
+    from pedal.types.builtin import BUILTIN_NAMES
+    skip = {'exit', 'quit', 'help', 'license', 'credits', 'copyright', 'breakpoint'}
+    progs = []
+
+    def keywords(f):
+        try:
+            return [q.name for q in inspect.signature(f).parameters.values()
+                    if q.name != 'self' and q.kind in (q.POSITIONAL_OR_KEYWORD, q.KEYWORD_ONLY)]
+        except (ValueError, TypeError):
+            return []
+    for name in sorted(BUILTIN_NAMES):
+        f = getattr(builtins, name, None)
+        if name.startswith('_') or name in skip or not callable(f):
+            continue
+        for args in ['', '1', "'a'", '[1, 2]', '1, 2', "'a', 'b'", '[1], [2]', 'x', 'x, 2']:
+            progs.append("x = 5\nr = %s(%s)\nprint(r)" % (name, args))
+        for kw in keywords(f):
+            progs.append("x = 5\nr = %s(%s=2)\nprint(r)" % (name, kw))
+            progs.append("x = 5\nr = %s(x, %s=2)\nprint(r)" % (name, kw))
+    extra = {'print': ['sep', 'end', 'file', 'flush'], 'sorted': ['key', 'reverse'], 'max': ['key', 'default'],
+             'min': ['key', 'default'], 'int': ['base'], 'round': ['ndigits'], 'sum': ['start'], 'enumerate': ['start'],
+             'open': ['mode', 'encoding'], 'str': ['encoding'], 'zip': ['strict']}
+    for name, kws in extra.items():
+        for kw in kws:
+            progs.append("x = [1]\nr = %s(x, %s=2)\nprint(r)" % (name, kw))
+    for recv, typ in [("'abc'", str), ('[1, 2]', list), ("{'a': 1}", dict), ('5', int), ('2.5', float), ('(1, 2)', tuple),
+                      ('{1, 2}', set)]:
+        for m in dir(typ):
+            if m.startswith('_'):
+                continue
+            for args in ['', '1', "'a'", '[1]', "'a', 'b'", '1, 2']:
+                progs.append("v = %s\nr = v.%s(%s)\nprint(r)" % (recv, m, args))
+            for kw in keywords(getattr(typ, m)):
+                progs.append("v = %s\nr = v.%s(%s=1)\nprint(r)" % (recv, m, kw))
+    return progs
+
+
 def analyse(code, times=1):
     from pedal.core.commands import clear_report, contextualize_report
     from pedal.core.report import MAIN_REPORT
@@ -81,13 +123,17 @@ def bounded(arg):
             continue
         programs.append(("v = %s\nprint(v)" % name, 'form'))
         programs.append(("r = %s(1)\nprint(r)" % name, 'form'))
+    calls = documented_calls()
+    if arg.get('tier') == 'quick':
+        calls = calls[::3]
+    programs += [(c, 'intro') for c in calls]
     for code, kind in programs:
         try:
             ast.parse(code)
         except SyntaxError:
             continue
         evaluations += 1
-        distinct.add((kind, code[:30]))
+        distinct.add((kind, code[:60]))
         try:
             results, counts = analyse(code, times=3)
         except BaseException as e:
@@ -111,7 +157,9 @@ def bounded(arg):
     samples = [{'program': FORMS[12]}, {'program': INTRO[8]}]
     return {'name': 'B-tifa-robust', 'bound': '%d programs: %d statement/expression forms of Python 3.12, %d introductory programs '
             '(builtin functions, methods of str/list/dict, branches, loops, functions, imports), every builtin name TIFA knows read '
-            'and called; each analysed 3 times' % (len(programs), len(FORMS), len(INTRO)),
+            'and called; %d calls of every known builtin function and every public method of str/list/dict/int/float/tuple/set with 0-2 '
+            'positional arguments and each documented keyword (analysis must complete); each analysed 3 times' % (
+                len(programs), len(FORMS), len(INTRO), len(calls)),
             'evaluations': evaluations, 'distinct_nontrivial': len(distinct),
             'rule': 'distinct = (kind, program prefix)', 'samples': samples, 'failures': failures}
 
